@@ -8,6 +8,7 @@
   transformationCallable.Call (clone, then pattern, then ownership set, then writes), and
   (c) the correspondence, which deep-compares the input before and after every Eval.
 -/
+import JsonataModel.Lemmas.Assoc
 import JsonataModel.Model.Interp
 import JsonataModel.Lemmas.Monad
 import JsonataModel.Generated.Facts
@@ -149,6 +150,93 @@ end
 theorem cloneVal_idem (v : Val N) : cloneVal (cloneVal v) = cloneVal v :=
   cloneVal_plain _ (cloneVal_isPlain v)
 
+
+/-! ### what an update and a delete do to one selected object -/
+
+theorem objGet_append_single (kvs : List (String × Val N)) (k k' : String) (v : Val N) :
+    objGet (kvs ++ [(k, v)]) k' =
+      match objGet kvs k' with
+      | some x => some x
+      | none => if k = k' then some v else none := by
+  induction kvs with
+  | nil => by_cases h : k = k' <;> simp [objGet, List.find?, h]
+  | cons p ps ih =>
+    by_cases hp : p.1 = k'
+    · simp [objGet, List.find?, hp]
+    · have : (p.1 == k') = false := by simpa using hp
+      simp only [objGet, List.cons_append, List.find?, this] at ih ⊢
+      exact ih
+
+/-- **a member set by the update is there afterwards, with the update's value** -/
+theorem objSet_get_same (kvs : List (String × Val N)) (k : String) (v : Val N) :
+    objGet (objSet kvs k v) k = some v := by
+  unfold objSet
+  split
+  · rename_i h
+    induction kvs with
+    | nil => simp at h
+    | cons p ps ih =>
+      by_cases hp : p.1 = k
+      · simp [objGet, hp]
+      · have hb : (p.1 == k) = false := by simpa using hp
+        have hps : ps.any (fun p => p.1 == k) = true := by simpa [List.any_cons, hb] using h
+        simp only [objGet, List.map_cons, hb, Bool.false_eq_true, if_false, List.find?] at ih ⊢
+        exact ih hps
+  · rename_i h
+    rw [objGet_append_single]
+    have hnone : objGet kvs k = none := by
+      unfold objGet
+      have : kvs.find? (fun p => p.1 == k) = none := by
+        rw [List.find?_eq_none]
+        intro x hx hxk
+        exact h (List.any_eq_true.mpr ⟨x, hx, hxk⟩)
+      rw [this]
+    simp [hnone]
+
+theorem objGet_eq_find (kvs : List (String × Val N)) (k : String) :
+    objGet kvs k = (kvs.find? (fun p => p.1 == k)).map (·.2) := by
+  unfold objGet; cases kvs.find? (fun p => p.1 == k) <;> rfl
+
+/-- **every other member is what it was** -/
+theorem objSet_get_other (kvs : List (String × Val N)) (k k' : String) (v : Val N) (hne : k' ≠ k) :
+    objGet (objSet kvs k v) k' = objGet kvs k' := by
+  unfold objSet
+  split
+  · rw [objGet_eq_find, objGet_eq_find]
+    exact find_map_set_other kvs k k' v hne
+  · rw [objGet_append_single]
+    have : ¬ k = k' := fun h => hne h.symm
+    cases objGet kvs k' <;> simp [this]
+
+/-- **a deleted name is gone** -/
+theorem objDel_get_same (kvs : List (String × Val N)) (k : String) : objGet (objDel kvs k) k = none := by
+  unfold objDel objGet
+  have : (kvs.filter (fun p => p.1 != k)).find? (fun p => p.1 == k) = none := by
+    rw [List.find?_eq_none]
+    intro x hx hxk
+    have := (List.mem_filter.mp hx).2
+    simp at this hxk
+    exact this hxk
+  rw [this]
+
+/-- **and deleting it leaves every other member as it was** -/
+theorem objDel_get_other (kvs : List (String × Val N)) (k k' : String) (hne : k' ≠ k) :
+    objGet (objDel kvs k) k' = objGet kvs k' := by
+  unfold objDel
+  rw [objGet_eq_find, objGet_eq_find, List.find?_filter]
+  congr 2
+  funext a
+  by_cases h : a.1 = k'
+  · simp [h, hne]
+  · simp [h]
+
+/-- deleting never adds a member and setting never removes one -/
+theorem objDel_length_le (kvs : List (String × Val N)) (k : String) : (objDel kvs k).length ≤ kvs.length := by
+  unfold objDel; exact List.length_filter_le _ _
+
+theorem objSet_length_ge (kvs : List (String × Val N)) (k : String) (v : Val N) :
+    kvs.length ≤ (objSet kvs k v).length := by
+  unfold objSet; split <;> simp
 
 /-! ### regenerated facts -/
 
